@@ -277,6 +277,16 @@ func ruleC06(p *Program, r *Run) {
 					letMode = true
 				}
 			}
+			// a constructor of the context (newExprContext(source, scope, letExprMode)): the literal it stands for
+			if call, ok := nn.(*ast.CallExpr); ok {
+				if t := info.TypeOf(call); t != nil && (types.Identical(t, types.NewPointer(ctxT)) || types.Identical(t, ctxT)) {
+					if lit := litOf(p.Constructed(call)); lit != nil {
+						if m := litField(info, lit, "mode"); m != nil && constName(info, p.Resolve(m)) == "letExprMode" {
+							letMode = true
+						}
+					}
+				}
+			}
 			return true
 		})
 	}
@@ -297,7 +307,12 @@ func ruleC06(p *Program, r *Run) {
 					if o == nil || !p.neverReassigned(o) {
 						continue
 					}
-					if lit := litOf(p.DefExpr(a)); lit != nil && types.Identical(info.TypeOf(lit), ctxT) {
+					src := p.DefExpr(a) // the one definition of the variable: a literal, or a call of a constructor
+					lit := litOf(src)
+					if lit == nil {
+						lit = litOf(p.Constructed(src))
+					}
+					if lit != nil && types.Identical(info.TypeOf(lit), ctxT) {
 						if m := litField(info, lit, "mode"); m != nil && constName(info, m) == "letExprMode" {
 							letMode = true
 						}
@@ -439,6 +454,7 @@ func ruleC06(p *Program, r *Run) {
 
 	// parameters are copied into the scope
 	copied := false
+	var copySites []ast.Node
 	compileRegion := p.regionOf(pkg, compile.Body)
 	inspectNodes := func(f func(ast.Node) bool) {
 		for _, root := range compileRegion {
@@ -458,6 +474,7 @@ func ruleC06(p *Program, r *Run) {
 				if ix, ok := as.Lhs[0].(*ast.IndexExpr); ok && objOf(info, ix.Index) == objOf(info, rs.Key) && objOf(info, as.Rhs[0]) == objOf(info, rs.Value) {
 					if ok2, _ := p.scopeProvenance(p.FuncAt(ix.Pos()), ix.X, 0); ok2 {
 						copied = true
+						copySites = append(copySites, rs)
 					}
 				}
 			}
@@ -479,9 +496,29 @@ func ruleC06(p *Program, r *Run) {
 		}
 		if ok2, _ := p.scopeProvenance(p.FuncAt(call.Pos()), call.Args[0], 0); ok2 {
 			copied = true
+			copySites = append(copySites, call)
 		}
 		return true
 	})
+	// the parameters are the outermost bindings: they enter the scope before the first statement is looked at. A
+	// copy that runs after (or inside) the statement loop puts a parameter on top of a let of the same name that the
+	// query wrote later - and lets that were already evaluated have seen the other value
+	var stmtLoop ast.Node
+	p.ancestors(letCase, p.FuncAt(letCase.Pos()), func(anc, _ ast.Node) bool {
+		switch anc.(type) {
+		case *ast.ForStmt, *ast.RangeStmt:
+			stmtLoop = anc
+		}
+		return true
+	})
+	for i, site := range copySites {
+		if stmtLoop == nil || p.FuncAt(site.Pos()) != p.FuncAt(stmtLoop.Pos()) {
+			continue
+		}
+		before := site.End() <= stmtLoop.Pos()
+		r.Check(before, "C06/copy", fmt.Sprintf("%s parameter copy #%d runs before the statements", fn, i+1), p.Pos(site.Pos()), "the copy stands before the loop over the statements",
+			"parameters are copied into the scope inside or after the loop over the statements: a let of the same name is overwritten by the parameter for the query, while lets evaluated earlier saw the let's value - one name with two meanings in one program")
+	}
 	r.Check(copied, "C06/copy", fn+" parameters enter the scope", p.Pos(compile.Pos()), "every parameter is copied into the fresh scope map (verbatim)", "the parameters are not copied key by key into the scope map")
 }
 
